@@ -41,7 +41,7 @@ CLAIMS = {
                 "index) and paired with edge writes; crosses only where the edge entry is 0; Ok(true) only under edges.sum()==n*n, exhausted "
                 "candidates give Err; lookup reads [idx(lhs), idx(rhs)] in all variants. By induction every entry of an Ok market is the product of "
                 "quotes along a path with inverses on reversed edges, quoted pairs returned as quoted."
-                " Also included: C10's state rules R10.3-R10.6, the FXRates loader rule (S20.2: a stored market goes through try_new) and R10.7 (Python-facing FXRates methods delegate unchanged). S16.1 is included (a stored market's quotes come back exactly: exact float text round trip); the starting-array builders are found by what they return, not by name.",
+                " Also included: C10's state rules R10.3-R10.6, the FXRates loader rule (S20.2: a stored market goes through try_new) and R10.7 (Python-facing FXRates methods delegate unchanged). S16.1 is included (a stored market's quotes come back exactly: exact float text round trip); the starting-array builders are found by what they return, not by name. R09.8: the edge-count capacity; the Ccy/FXPair loader rules are included.",
         "design_ref": "DESIGN.md §4 C09",
         "note": "Not decided (declared): that every valid tree is accepted (liveness of the recursive fill-in); order/base independence as executed; rounding.",
         "technique": "path flattening of symbolic summaries; array-comprehension semantics of indexed writes (chain typing); quantifier shapes",
@@ -52,7 +52,7 @@ CLAIMS = {
                 "self in update/set_ad_order); update refuses unknown pairs (forall/exists shape), replaces the slot found by pair equality, rebuilds on "
                 "currencies[0] from the full list and replaces all three fields; set_ad_order's 9 cases: identity / rebuild at the target order / "
                 "value-preserving element projection into n x n."
-                ' Also included: the AD operator and alignment rules (C01/C02/C03) and R10.7 (Python-facing methods).',
+                ' Also included: the AD operator and alignment rules (C01/C02/C03) and R10.7 (Python-facing methods); R09.1 (construction validation) is included.',
         "design_ref": "DESIGN.md §4 C10",
         "note": "Not decided: numeric sensitivities on concrete markets (C01/C02 along C09's chain typing). Trusted: lib/cel.py, MIR place syntax.",
         "technique": "cross-language constant agreement; MIR reachability (no write before last fallible point); symbolic case evaluation with explore()",
@@ -75,7 +75,7 @@ CLAIMS = {
                 "NamedCal and every CalType variant forward to the wrapped calendar; Cal's leaves are the mask/holiday membership tests; try_new's three "
                 "paths (lower-case before split, >2 parts Err, part 0 -> calendars, part 1 -> settlement) and parse_cals (one lookup per piece, ? "
                 "propagation); the behavioural equalities quantify over 1970-01-01..2200-12-31 and require both agreements on the same date."
-                ' Also included: R05.6 (Python-facing calendar methods). R06.5: the Python-facing __eq__ of the three calendar classes is the core == for every kind of right operand.',
+                ' Also included: R05.6 (Python-facing calendar methods). R06.5: the Python-facing __eq__ of the three calendar classes is the core == for every kind of right operand. The NamedCal loader rule (S20.2) and the storage rules of the calendar types (S16.2/3/7) are included.',
         "design_ref": "DESIGN.md §4 C06",
         "note": "Not decided: nothing about concrete dates (C07). Trusted: lib/cel.py quantifier model; cal_date_range being calendar independent is checked.",
         "technique": "symbolic evaluation with quantifier normal forms (NNF); path flattening; delegation tables",
@@ -138,7 +138,7 @@ CLAIMS = {
                 "values through value-preserving conversions, float nodes raised with exactly tag vars[i] by enumerate index over the sorted map, "
                 "vars = id+'0'.. ; nodes_into_order sorts before enumerating (MIR dominance) and tags the same way; index_value is base/curve value with "
                 "exactly 0 strictly before the first node and Err without a base."
-                ' Also included: R12.4 (Python-facing Curve: one delegation, no re-tagging detour) and the AD rules. R11.4 is included (the sort of the stored nodes is a must-pass-through on every construction path: \'i-th node in date order\').',
+                ' Also included: R12.4 (Python-facing Curve: one delegation, no re-tagging detour) and the AD rules. R11.4 is included (the sort of the stored nodes is a must-pass-through on every construction path: \'i-th node in date order\'). R17.1/R17.2 (gradient read-back by name) are included.',
         "design_ref": "DESIGN.md §4 C12",
         "note": "Not decided: numeric gradients/Hessians of looked-up values (follow from C11's generic formulas + C01/C02). Trusted: lib/cel.py Seq model.",
         "technique": "exhaustive case evaluation of match tables with a symbolic iterator model; MIR dominance",
@@ -148,7 +148,7 @@ CLAIMS = {
                 "Number, new(f, vars), and every operator/comparison on the Number container for all 9 (or 3) kind cases are evaluated symbolically with "
                 "the constructor of the operand known; the result must be the right variant wrapping exactly the contained types' rule (oracle form), "
                 "values untouched, and exactly the (Dual,Dual2)/(Dual2,Dual) cases must diverge. Enumerates all cases of finite tables — complete for them."
-                " Also: R18.4 — every Python-facing arithmetic/comparison operator of Dual/Dual2, for every kind of the other operand, is the core operator in the right operand order (or Err); `%` is compared with the contained type's own `%` (not with a hand-written formula).",
+                " Also: R18.4 — every Python-facing arithmetic/comparison operator of Dual/Dual2, for every kind of the other operand, is the core operator in the right operand order (or Err); `%` is compared with the contained type's own `%` (not with a hand-written formula). Any other two-operand method of the container (abs_sub) is held to the same table.",
         "design_ref": "DESIGN.md §4 C18",
         "note": "Trusted: lib/cel.py (structural match evaluation), lib/oracle.py. Refusal = panic! (divergence). Type-level refusal of Dual+Dual2 is a compile-fail witness (thorough tier, when built).",
         "technique": "exhaustive case evaluation of match tables over typed HIR (symbolic), compared with the calculus oracle",
@@ -157,7 +157,7 @@ CLAIMS = {
         "text": "partial_cmp impls are f64::partial_cmp of the two values in operand order and no other PartialOrd method is overridden; abs is the "
                 "piecewise flip of all fields; every % impl equals the oracle row a - trunc(a/b)*b in value and derivatives; Sum is fold(zero,+) from a "
                 "variable-free zero; zero()/one() are variable-free constants, neutral by the oracle rows."
-                ' Also: R19.1b (comparisons on the Number container), the quotient of `%` is trunc of one f64 division (R19.3 side condition), and the number-surface rules R18.3/R18.4. The alignment rules (C03 R03.3/R03.5: by-name gather of gradients and Hessians) are included.',
+                ' Also: R19.1b (comparisons on the Number container), the quotient of `%` is trunc of one f64 division (R19.3 side condition), and the number-surface rules R18.3/R18.4. The alignment rules (C03 R03.3/R03.5: by-name gather of gradients and Hessians) are included. The container: Sum for Number is one fold from F64(0.0) with the container\'s own +, and Number::zero()/one() are the plain floats.',
         "design_ref": "DESIGN.md §4 C19",
         "note": "Trusted: lib/cel.py, lib/oracle.py. Not decided: NaN ordering; abs exactly at zero.",
         "technique": "symbolic normalisation of typed HIR against a calculus oracle; idiom recognition (fold-from-zero)",
@@ -176,7 +176,7 @@ CLAIMS = {
     "C02": {
         "text": "As C01 for Dual2 including the half-Hessian (symmetrised cross term, 1/2 convention), plus sibling agreement of value/gradient with "
                 "the first-order operator and field-flow identity of the Dual<->Dual2 conversions."
-                " Also included: R18.3, R19.4, R18.4 (Number container, Sum, Python-facing operators), C17's read-back rules and C03's alignment rules. R19.2 (abs negates value, gradient and Hessian together) is included.",
+                " Also included: R18.3, R19.4, R18.4 (Number container, Sum, Python-facing operators), C17's read-back rules and C03's alignment rules. R19.2 (abs negates value, gradient and Hessian together) is included; so is the manifold rule R17.3 (the gradient as second-order numbers keeps the requested names in the requested order).",
         "design_ref": "DESIGN.md §4 C02",
         "note": "Trusted: lib/cel.py, lib/oracle.py. Not decided: rounding, kernels, symmetry of user-supplied asymmetric Hessians; read-back factor 2 is in C17.",
         "technique": "symbolic normalisation of typed HIR against a calculus oracle; sibling cross-check",
